@@ -10,7 +10,7 @@ RULE = ("scenario families ['storm', 'mix'] (see vlib/loopgen.py) rotating over 
         "replayed through the Lean machine (every library record must be predicted) and through the Lean monitor(s) ['C01']; sanitizer "
         "classes counted as violations of this property: ['heap-use-after-free', 'SEGV', 'double-free', 'attempting free']. non-trivial = a handler unregistered (and the scenario then freed) an object other than itself, or a one-shot object was freed inside its own handler; distinct by hash of the log")
 
-RETRACT_RULE = ("; plus the ENUMERATED family 'retract' (264 scenarios per run, not sampled): 4 methods x {descriptor, cross-thread iv_event, iv_event_raw} "
+RETRACT_RULE = ("; plus the ENUMERATED family 'retract' (416 scenarios per run, not sampled: 264 same-iteration retractions, 24 failed-then-real registrations, 128 failed registration followed by release of the object and table compaction): 4 methods x {descriptor, cross-thread iv_event, iv_event_raw} "
                 "handler dispatched first x 10 manipulations of another source collected in the same iteration (handlers cleared then unregistered, "
                 "freed, recycled, same struct re-registered, bands dropped and re-added) x both arrival orders, and failed registration attempts "
                 "followed by a successful registration of the same, not re-initialised, struct")
@@ -38,8 +38,8 @@ AFTER_UNREG = re.compile(r"unregister|not registered|use-after-free|after the in
 
 
 def run(tier, seed, proof):
-    res = l1.run_property(PROP, tier, seed, proof, FAMILIES, MONS, SANS, nontrivial, RULE + RETRACT_RULE + OTHER_RULE,
-                          extra_cases=lambda tier, seed: loopgen.retract_cases(seed))
+    res = l1.run_property(PROP, tier, seed, proof, FAMILIES, MONS, SANS, nontrivial, RULE + RETRACT_RULE + loopgen.ENUM_RULE + OTHER_RULE,
+                          extra_cases=lambda tier, seed: loopgen.retract_cases(seed) + loopgen.erronly_cases() + loopgen.quit_cases())
     import importlib
     kinds = {}
     for name, what in OTHER_KINDS:
